@@ -43,6 +43,7 @@ func checkC17(ctx *Ctx, r *Report) {
 	c17ArgsAssignmentsNotAligned(ctx, r)
 	c17UnfoldTestsTarget(ctx, r)
 	c17FourthRound(ctx, r)
+	c17MethodChangeLocated(ctx, r)
 	// the copies veneers rely on
 	for _, m := range findCopyMethods(ctx) {
 		if m.pkg.PkgPath == astPkgPath {
@@ -712,7 +713,9 @@ func c17MovedPairs(ctx *Ctx, r *Report) {
 		}
 	}
 	r.Count("functions moving arguments and assignments of an option together", n)
-	r.Floor("functions moving arguments and assignments of an option together", 2)
+	// (array_to_append and map_to_index were instances until they stopped pairing Args[0] with Assignments[0]: they
+	// now locate the assignment that uses the argument and put every other assignment back in a loop)
+	r.Floor("functions moving arguments and assignments of an option together", 1)
 }
 
 // c17AssignmentsConserved: an option action that answers with one option built as a copy of the one it was given and
@@ -834,6 +837,74 @@ func c17AssignmentsConserved(ctx *Ctx, r *Report) {
 				}
 				return true
 			})
+			// loop form: `for i, a := range option.Assignments { if i != located { cp.Assignments = append(cp.Assignments, a); continue }; … append(cp.Assignments, <rewritten>) }`
+			// — every assignment of the original goes back, one of them rewritten
+			if !restored {
+				ast.Inspect(lit.Body, func(m ast.Node) bool {
+					rs, ok := m.(*ast.RangeStmt)
+					if !ok || rs.Key == nil || rs.Value == nil {
+						return true
+					}
+					if root, shape := moveShape(info, rs.X, "Assignments", defs, 0); root != param || shape != "all" {
+						return true
+					}
+					key, _ := rs.Key.(*ast.Ident)
+					val, _ := rs.Value.(*ast.Ident)
+					if key == nil || val == nil {
+						return true
+					}
+					appendsTo := func(n ast.Node, what func(ast.Expr) bool) bool {
+						found := false
+						ast.Inspect(n, func(q ast.Node) bool {
+							c, ok := q.(*ast.CallExpr)
+							if !ok || len(c.Args) != 2 {
+								return true
+							}
+							if f, ok := c.Fun.(*ast.Ident); !ok || f.Name != "append" {
+								return true
+							}
+							tsel, ok := ast.Unparen(c.Args[0]).(*ast.SelectorExpr)
+							if !ok || tsel.Sel.Name != "Assignments" {
+								return true
+							}
+							if id, ok := ast.Unparen(tsel.X).(*ast.Ident); !ok || objOf(info, id) != cp {
+								return true
+							}
+							if what(c.Args[1]) {
+								found = true
+							}
+							return true
+						})
+						return found
+					}
+					keptAsIs, rewritten := false, false
+					for _, st := range rs.Body.List {
+						if is, ok := st.(*ast.IfStmt); ok {
+							onKey := false
+							ast.Inspect(is.Cond, func(q ast.Node) bool {
+								if id, ok := q.(*ast.Ident); ok && objOf(info, id) == info.Defs[key] {
+									onKey = true
+								}
+								return true
+							})
+							if onKey && appendsTo(is.Body, func(e ast.Expr) bool {
+								id, ok := ast.Unparen(e).(*ast.Ident)
+								return ok && objOf(info, id) == info.Defs[val]
+							}) {
+								keptAsIs = true
+							}
+							continue
+						}
+						if appendsTo(st, func(ast.Expr) bool { return true }) {
+							rewritten = true
+						}
+					}
+					if keptAsIs && rewritten {
+						restored = true
+					}
+					return true
+				})
+			}
 			if restored && conditional != "" {
 				r.Bad("effects/assignments-conserved", fmt.Sprintf("%s rebuilds %s.Assignments", ctx.FuncName(fobj), cp.Name()), rebuilt.Pos(),
 					fmt.Sprintf("%s appends the original's remaining assignments back only under `%s`, a condition that does not look at the assignments: an option with one argument and a constant added by add_assignment loses that constant — it no longer assigns the same targets", ctx.FuncName(fobj), conditional))
@@ -2056,4 +2127,63 @@ func c17FourthRound(ctx *Ctx, r *Report) {
 		r.Undecided("anchor lost: RenameArgumentsAction (%d) / PromoteOptionsToConstructor (%d) / StructFieldsAsArgumentsAction (%d)", seenA, seenB, seenC)
 	}
 	r.Floor("appends to the constructor in promote_options_to_constructor", 2)
+}
+
+// c17MethodChangeLocated: an action that changes the method of an assignment (append / index instead of direct) must
+// have found the assignment that uses the argument it rewrites: taking `option.Assignments[0]` believes that the
+// first assignment is that one, which struct_fields_as_arguments (a constant field first) and add_assignment falsify —
+// the constant becomes an append and the real use keeps the old argument name.
+func c17MethodChangeLocated(ctx *Ctx, r *Report) {
+	n := 0
+	forEachVeneerClosure(ctx, func(p *packages.Package, fd *ast.FuncDecl, fobj *types.Func, lit *ast.FuncLit) {
+		info := p.TypesInfo
+		defs := map[types.Object]ast.Expr{}
+		ast.Inspect(lit.Body, func(q ast.Node) bool {
+			if as, ok := q.(*ast.AssignStmt); ok && as.Tok == token.DEFINE && len(as.Lhs) == len(as.Rhs) {
+				for i, l := range as.Lhs {
+					if id, ok := l.(*ast.Ident); ok {
+						defs[info.Defs[id]] = as.Rhs[i]
+					}
+				}
+			}
+			return true
+		})
+		ast.Inspect(lit.Body, func(m ast.Node) bool {
+			as, ok := m.(*ast.AssignStmt)
+			if !ok || len(as.Lhs) != 1 || len(as.Rhs) != 1 {
+				return true
+			}
+			sel, ok := ast.Unparen(as.Lhs[0]).(*ast.SelectorExpr)
+			if !ok || sel.Sel.Name != "Method" {
+				return true
+			}
+			rhs := exprString(as.Rhs[0])
+			if !strings.HasSuffix(rhs, "AppendAssignment") && !strings.HasSuffix(rhs, "IndexAssignment") {
+				return true
+			}
+			id, ok := ast.Unparen(sel.X).(*ast.Ident)
+			if !ok {
+				return true
+			}
+			n++
+			src := ""
+			if d, ok := defs[objOf(info, id)]; ok {
+				ast.Inspect(d, func(q ast.Node) bool {
+					if ix, ok := q.(*ast.IndexExpr); ok {
+						if ff := fieldOf(info, ix.X); ff != nil && ff.Name() == "Assignments" {
+							if tv, ok := info.Types[ix.Index]; ok && tv.Value != nil {
+								src = exprString(ix)
+							}
+						}
+					}
+					return true
+				})
+			}
+			r.Check(src == "", "effects/method-change-located", fmt.Sprintf("%s changes the method of %s", ctx.FuncName(fobj), id.Name), as.Pos(), "the assignment is not taken by a constant index",
+				fmt.Sprintf("%s turns %s into an append / index assignment: it believes the first assignment is the one that uses the argument; after struct_fields_as_arguments a constant field comes first — `opts.kind = \"fixed\"` becomes an append and `opts.tags = tags` keeps an argument name the option no longer declares", ctx.FuncName(fobj), src))
+			return true
+		})
+	})
+	r.Count("assignments whose method an option action changes", n)
+	r.Floor("assignments whose method an option action changes", 2)
 }
